@@ -64,11 +64,14 @@ TFiles == /\ IsEvent("Files")
           /\ UNCHANGED <<sl, doc, tv>>
 
 \* C06
-WireOK(e)     == e.ok /\ LET j == Canon(e.json) S == Canon(e.sch) IN Validates(j, S, doc) /\ Described(j, S, doc)
+\* Validates interprets the structural keywords; the value-constraining ones (lengths, bounds,
+\* patterns) are judged by the instrument (jsonschema, Draft 2020-12) on the schema as emitted and
+\* the body as sent: e.instr is "valid", "invalid" or "n/a" (nothing to judge)
+WireOK(e)     == e.ok /\ e.instr # "invalid" /\ LET j == Canon(e.json) S == Canon(e.sch) IN Validates(j, S, doc) /\ Described(j, S, doc)
 ContractOK(e) == LET j == Enc(schema, e.val) S == Canon(e.sch) IN Validates(j, S, doc) /\ Described(j, S, doc)
 CheckHow(e) ==
   \* a value that breaks a required rule is not a request the server accepts nor a reply it sends
-  IF e.hasVal /\ ~SatisfiesRequired(schema, e.val) THEN "ok"
+  IF e.hasVal /\ ~SatisfiesRules(schema, e.val) THEN "ok"
   ELSE IF e.hasVal /\ ~ContractOK(e)
   THEN (IF "D_openapi_wkt_as_objects" \in Dev /\ WktScalarReachable(schema, e.val.type) THEN "D_openapi_wkt_as_objects"
         ELSE IF "D_oneof_schema" \in Dev /\ OneofCfgReachable(schema, e.val.type) THEN "D_oneof_schema"
